@@ -1038,6 +1038,9 @@ def check(reg, tier):
     from contracts import c10
     from vp.core import adopt
     adopt(reg, c10._calc_theory_contract, "C10", only="calc_theory")
+    # which resolution object a 1-D data set gets (zero widths among positive ones must still be smeared)
+    from contracts import interp_data
+    interp_data.contract(reg, PROP, {"resolution"})
     reg.assume("erf, exp and sqrt are uninterpreted with the monotonicity / inverse facts instantiated where used; doubles are "
                "reals; sqrt(2.0) is the float constant")
     reg.assume("conclusions about sums (weights sum to one, flat intensity unchanged, scale and background pass through "
